@@ -103,7 +103,9 @@ def parseParts (k : Kind) (npos : Nat) : Nat → In → List String → Option I
 
 def cycleLine (d : DS) (i : In) : DS × String :=
   let t := 1 + d.n
-  let ran := runs t d.st i
+  -- `if_then_else` (not `switch_`) is evaluated once at the start time (its REF inputs are sampled at start): the engine
+  -- runs a cycle at the start time even when the script is idle there
+  let ran := runs t d.st i || (t == 1 && !d.cfg.sw)
   let r := step d.cfg t d.st i
   let d' := { d with n := d.n + 1, st := r.1 }
   if !ran then (d', s!"t={t} cyc=0 w=- r=- v=- pv=-") else
